@@ -16,7 +16,7 @@ PLAN = dict(
     rule="every child process first races the process-wide singletons (20 goroutines, two per each of "
          "10 first-use operations, as their very first library call), then runs rounds: cold shared objects (SM2 private/public key, ECDH key, SM9 sign/encrypt "
          "master and user keys unmarshalled from bytes, SM4 block + shared GCM AEAD, certificate pools filled from PEM), 4/8/16 "
-         "goroutines released from a barrier, each executing a seeded list of 3-8 of 34 operations with scripted randomness, then "
+         "goroutines released from a barrier, each executing a seeded list of 3-8 of 40 operations (on the shared objects and on objects only that goroutine knows, so that scratch space shared between objects is exposed) with scripted randomness, then "
          "the same lists sequentially on a second cold object set; results must be identical and the race detector silent. "
          "Distinct = class keys (configuration | goroutines / simultaneous first calls observed / completion order of the first "
          "four finishers / GOMAXPROCS, plus the first-use operations that were contended)",
